@@ -509,11 +509,86 @@ def run(ck):
         ck.add_file(rel)
     snr_term(ck)
     radio_call(ck)
+    pipeline_wiring(ck)
     ck.bounded_run("RadioEFieldParams on aligned bands", lambda: bins(ck), design="8 fixed + 20 (quick) / 300 (thorough) seeded 10 MHz-aligned bands in [0,1650]")
     ck.bounded_run("shipped ionosphere table", lambda: ionosphere_table(ck), design="4 bands x 6 TEC values x TEC error in {0, 0.5, 10}: parameters found, scaling finite, in (0, 1.5]")
     ck.bounded_run("real SNR chain", lambda: _wrap(native_snr(ck)), design="5 bands x 3 (h_obs, Nants, gain): negative scaling, additivity, sqrt(N), order, finiteness, frame")
     ck.bounded_run("real EASRadio with fixed random numbers", lambda: _wrap(native_radio(ck)),
                    design="4 (band, altitude) configurations evaluated in sequence in one process, 40-event batches: bins, exact zeros, finiteness, energy linearity, permutation, frame")
+
+
+def _hs(x):
+    from nssvc.sym import has_sym
+
+    return has_sym(x)
+
+
+def pipeline_wiring(ck):
+    """compute(): the signal-to-noise stage is evaluated with THIS run's detector -- altitude, number of antennas and gain of the
+    configuration reach calculate_snr (positionally or by keyword); a dropped argument silently falls back to the function's default"""
+    from contracts.compute_model import Model
+
+    ck.add_file("nuspacesim/compute.py")
+    for mode in ("Diffuse", "Target"):
+        m = Model(mode=mode, optical=False, radio=True)
+        paths = m.run()
+        tag = "compute[%s,radio]" % mode
+        calls = [(p, c) for p in paths if p.kind == "return" for c in p.state["log"] if c[0] == "call" and c[1] == "calculate_snr"]
+        if not calls or any(p.kind == "unsupported" for p in paths):
+            o = ck.ob("%s/exec" % tag, "exec")
+            o.note = "; ".join("%s %s" % (p.kind, p.exc) for p in paths)[:300]
+            ck._undecided(o, lambda: native_pipeline_antennas(ck))
+            continue
+        for p, c in calls:
+            cfg = p.state["cfg"]
+            h_obs, nants, gain = c[2][2], c[2][3], c[2][4]
+            want = (cfg.detector.initial_position.altitude, cfg.detector.radio.nantennas, cfg.detector.radio.gain)
+            ok = all((a is b) or (not _hs(a) and not _hs(b) and a == b) for a, b in zip((h_obs, nants, gain), want))
+            ck.direct("%s/call.snr_detector" % tag, ok, "post", "call log of the symbolic execution (stage contracts)",
+                      clause="calculate_snr receives the configuration's detector altitude, number of antennas and antenna gain",
+                      note="" if ok else "received (h_obs, Nants, gain) = %s; configuration: %s" % (str((h_obs, nants, gain))[:80], str(want)[:80]),
+                      witness=None if ok else {"mode": mode}, replay_out=None if ok else native_pipeline_antennas(ck))
+
+
+def native_pipeline_antennas(ck):
+    """a real compute() run with a non-default detector (16 antennas, gain 3 dB, 400 km): the arguments the real calculate_snr is
+    entered with are observed by a pass-through wrapper bound in compute's namespace"""
+    import contextlib
+    import importlib
+    import inspect
+    import io
+
+    from nuspacesim.config import NssConfig
+
+    C = importlib.import_module("nuspacesim.compute")
+    real = C.calculate_snr
+    seen = []
+
+    def spy(*a, **k):
+        ba = inspect.signature(real).bind(*a, **k)
+        ba.apply_defaults()
+        seen.append({n: (float(v) if isinstance(v, (int, float, np.floating, np.integer)) else None) for n, v in ba.arguments.items()})
+        return real(*a, **k)
+
+    try:
+        cfg = NssConfig()
+        cfg.simulation.thrown_events = 200
+        cfg.detector.optical.enable = False
+        cfg.detector.radio.nantennas, cfg.detector.radio.gain, cfg.detector.initial_position.altitude = 16, 3.0, 400.0
+        C.calculate_snr = spy
+        with contextlib.redirect_stdout(io.StringIO()), contextlib.redirect_stderr(io.StringIO()), np.errstate(all="ignore"):
+            np.random.seed(ck.seed + 11)
+            C.compute(cfg)
+    except Exception as ex:
+        return {"violated": None, "note": "native run failed: %r" % ex}
+    finally:
+        C.calculate_snr = real
+    if not seen:
+        return {"violated": None, "note": "compute() did not enter calculate_snr through its module-level name"}
+    got = {k: v for k, v in seen[0].items() if v is not None}
+    ok = sorted(got.values()) == sorted([400.0, 16.0, 3.0]) and got.get("Nants") == 16.0 and got.get("h_obs") == 400.0 and got.get("gain") == 3.0
+    return {"violated": not ok, "input": {"detector": {"altitude_km": 400.0, "nantennas": 16, "gain_dB": 3.0}, "thrown_events": 200, "seed": ck.seed + 11},
+            "observed": {"calculate_snr entered with": got}}
 
 
 def _wrap(out):
